@@ -1,5 +1,5 @@
 """property id -> rules"""
-from rules import task_constraints, tasks, optional, logic, resources, resource_constraints, completeness, indicators, buffers
+from rules import task_constraints, tasks, optional, logic, resources, resource_constraints, completeness, indicators, buffers, driver
 from sa.selftest import self_test_rule
 
 NOTES = ("Every check decides structural clauses (necessary conditions) of its property from /repo's source as parsed on "
@@ -8,6 +8,46 @@ NOTES = ("Every check decides structural clauses (necessary conditions) of its p
 NOT_APPLICABLE = {}
 
 PROPERTIES = {
+    "C07": {
+        "rules": driver.C07_RULES,
+        "thorough": [self_test_rule("C07")],
+        "level_text": "The structure of the optimisation driver is decided on the statement CFG and the extracted IR: one direction table from Objective.kind through solve() ('min'/'max'), the strict comparator asserted in the improvement loop, the bound consulted (_bounds[0]/[1]) and minimize()/maximize() on the Optimize handle, for all 13 built-in objectives; typestate of the improvement loop (model() only after a check that is neither unsat nor unknown; the returned schedule is only ever that model; every way back to the next check passes through push() and the strict bound on the value just read; nothing is popped inside the loop); the weighted objective is Sum(weight*target) over every objective; Optimize handle iff optimizer=='optimize' and an objective exists.",
+        "level_note": 'NOT decided: that the final unsat means no better schedule exists and that z3.Optimize returns an optimum (solver behaviour); agreement of the two optimisers follows from those. The last-declared-objective direction of the weighted objective is reported under C14.',
+        "explanation": 'Static analysis of solver.py / objective.py: CFG must-pass-through and forward must-analysis for the loop typestate; IR extraction for the asserted bound, the direction table and the objective wiring.',
+        "technique": "static analysis: statement CFG (must-pass-through, typestate) + AST-to-term IR extraction",
+    },
+    "C12": {
+        "rules": driver.C12_RULES,
+        "thorough": [self_test_rule("C12")],
+        "level_text": 'find_another_solution is shown to add exactly one clause, outside any pushed scope, that is the disjunction over every task of the unfiltered registry of start != model value, end != model value and (optional tasks) scheduled != model value, each compared with the model value of the same constant, then to return solve(); find_another_solution_for_variable adds variable != its model value; both reject a call without a model; no chained comparison over non-trivial operands exists in the package (positive fixture kept).',
+        "level_note": 'NOT decided: that repeating the request visits every distinct timing exactly once - a property of the sequence of models z3 returns under accumulating clauses (a history, for a model checker or an enumeration test).',
+        "explanation": 'Static analysis of solver.py: canonical-form comparison of the blocking clause reconstructed from the source; AST scan for chained comparisons.',
+        "technique": "static analysis: statement CFG (must-pass-through, typestate) + AST-to-term IR extraction",
+    },
+    "C13": {
+        "rules": driver.C13_RULES,
+        "thorough": [self_test_rule("C13")],
+        "level_text": 'Typestate over the solver handle for every method of SchedulingSolver: each push() is matched by a pop on every exit (counter idiom or same-iteration pop), initialize() is only reached under `not self._initialized` and records that it ran, _model is only written from a model obtained after a sat verdict, and no solver method creates self-registering model elements or writes a problem registry.',
+        "level_note": 'NOT decided: Pareto walking (state internal to z3.Optimize).',
+        "explanation": 'Static analysis of solver.py: CFG path analysis (push/pop balance, guarded initialisation, model typestate) and effect analysis of the solver methods on the extracted IR.',
+        "technique": "static analysis: statement CFG (must-pass-through, typestate) + AST-to-term IR extraction",
+    },
+    "C15": {
+        "rules": driver.C15_RULES,
+        "thorough": [self_test_rule("C15")],
+        "level_text": 'Non-interference of the performance options, decided on the source: no test in the assertion-building methods mentions parallel / random_values / verbosity / max_time / max_iter / save_intermediate_states; the normalised assertion stream of initialize() is identical for every value of debug and logics (pairwise over all configurations) and differs between optimizers only by the definitional atoms of the equivalent objective; every z3 global option key is set on all paths of the constructor with the documented value; solver handle selection.',
+        "level_note": "NOT decided: that two configurations agree on feasibility and optimum - that is z3's behaviour on equal inputs; what is decided is that the inputs ARE equal.",
+        "explanation": 'Static analysis of solver.py: control-dependence scan, pairwise comparison of extracted assertion streams across configurations, option table.',
+        "technique": "static analysis: statement CFG (must-pass-through, typestate) + AST-to-term IR extraction",
+    },
+    "C19": {
+        "rules": driver.C19_RULES,
+        "thorough": [self_test_rule("C19")],
+        "level_text": "In debug mode every assertion is tracked under a fresh label and none goes through add(); the label is mapped to the owner name exactly when a name is passed; only the constraint drain passes a name, the constraint's own, together with that constraint's assertion list; the reader lists problem.constraints[map[label]] for labels of the unsat core found in the map. Together with C15's stream equality this gives: every listed constraint is a constraint of the problem, and debug mode asserts the same system.",
+        "level_note": "NOT decided: that the listed set together with the basic rules is really unsatisfiable (z3's unsat-core soundness) and uniqueness of the 8-hex-digit labels (a probability).",
+        "explanation": 'Static analysis of solver.py: value-set analysis of the label map writer / reader, debug-route completeness on the extracted IR.',
+        "technique": "static analysis: statement CFG (must-pass-through, typestate) + AST-to-term IR extraction",
+    },
     "C09": {
         "rules": buffers.RULES,
         "thorough": [self_test_rule("C09")],
